@@ -55,6 +55,17 @@ Proof. vm_compute. reflexivity. Qed.
 Example ex_param_list : length non_angle_params = 21%nat.
 Proof. vm_compute. reflexivity. Qed.
 
+(* the reported angle is the canonical representative mod pi: values already in [0, pi) are unchanged, wrapping twice
+   changes nothing, and any two samples of the same position angle (differing by a multiple of pi) are reported identically *)
+Theorem C19_wrap_fixes_range : forall x, (0 <= x < PI)%R -> wrap_value x = x.
+Proof. exact wrap_fixes_range. Qed.
+
+Theorem C19_wrap_idempotent : forall x, wrap_value (wrap_value x) = wrap_value x.
+Proof. exact wrap_idempotent. Qed.
+
+Theorem C19_wrap_canonical : forall x y (m : Z), (y = x + IZR m * PI)%R -> wrap_value y = wrap_value x.
+Proof. exact wrap_canonical. Qed.
+
 Print Assumptions C19_angles_wrapped.
 Print Assumptions C19_others_untouched.
 Print Assumptions C19_poly_coeff_untouched.
@@ -62,3 +73,6 @@ Print Assumptions C19_bspl_w_untouched.
 Print Assumptions C19_internals_dropped.
 Print Assumptions C19_models_preserved.
 Print Assumptions C19_wrap_range_congruent.
+Print Assumptions C19_wrap_fixes_range.
+Print Assumptions C19_wrap_idempotent.
+Print Assumptions C19_wrap_canonical.
